@@ -41,17 +41,36 @@ class SimHorizon(BaseException):
     """the controlled clock would pass the end of the observation window"""
 
 
+NONE_TOK = 999   # Periodic!NoneTok: the action returned / received Python's None
+
+
 class Codec:
-    def __init__(self, profile: str):
-        self.profile = profile
+    def __init__(self, profile: str, none_at: int = 0):
+        # a scenario in which some call returns None needs None to be distinguishable from the initial state
+        self.profile = "plain" if none_at else profile
+        self.none_at = none_at
+
+    def ret(self, k: int, recv: Any) -> Any:
+        """the user's action as the table Periodic!Ret on tokens, made concrete"""
+        if k == self.none_at:
+            return None
+        if recv == NONE_TOK:
+            return self.val(100)
+        return self.val(recv + 1 if isinstance(recv, int) else k)
 
     def val(self, tok: int) -> Any:
+        if tok == NONE_TOK:
+            return None
         if self.profile == "falsy":
             return FALSY[tok % len(FALSY)] if tok < len(FALSY) else ("late", tok)
         return 10 + tok
 
     def tok(self, v: Any, hint: int) -> Any:
         """token of the value the action received; hint = the token the k-th call should see"""
+        if self.profile == "plain":
+            if v is None:
+                return NONE_TOK
+            return v - 10 if type(v) is int else repr(v)
         want = self.val(hint)
         if type(v) is type(want) and v == want:
             return hint
@@ -78,7 +97,7 @@ def perform_vt(scn: Dict[str, Any], kind: str, *, catch: bool = False, profile: 
     from reactivex.scheduler.scheduler import UTC_ZERO
     s = vt_common.make_sched(kind)
     dt = kind == "hist"
-    cod = Codec(profile)
+    cod = Codec(profile, scn.get("noneAt", 0))
     form, p, t0, first, stop, dur, H = (scn[k] for k in ("form", "p", "t0", "first", "stop", "dur", "horizon"))
 
     def A(t):
@@ -119,9 +138,10 @@ def perform_vt(scn: Dict[str, Any], kind: str, *, catch: bool = False, profile: 
 
     def action(state=None):
         k = len(ticks) + 1
-        ticks.append([k, clk(), cod.tok(state, k - 1)])
+        recv = cod.tok(state, k - 1)
+        ticks.append([k, clk(), recv])
         body(k)
-        return cod.val(k)
+        return cod.ret(k, recv)
 
     def on_next(v):
         k = len(ticks) + 1
@@ -377,7 +397,7 @@ def perform_rt(scn: Dict[str, Any], kind: str, *, profile: str = "plain", order:
     from reactivex.scheduler import CatchScheduler, EventLoopScheduler, NewThreadScheduler, TimeoutScheduler
     form, p, t0, first, stop, dur, H = (scn[k] for k in ("form", "p", "t0", "first", "stop", "dur", "horizon"))
     assert form == "periodic"
-    cod = Codec(profile)
+    cod = Codec(profile, scn.get("noneAt", 0))
     over = bool(scn.get("over"))
     # stopping scenarios end by themselves well before; overrunning calls stretch the run
     end = float(H) if stop["kind"] == "none" else float(H + 2 + 4 * p + (12 * (max(dur) + p) if over else 0))
@@ -424,7 +444,8 @@ def perform_rt(scn: Dict[str, Any], kind: str, *, profile: str = "plain", order:
 
         def action(state=None):
             k = len(ticks) + 1
-            ticks.append([k, _num(sim.t), cod.tok(state, k - 1)])
+            recv = cod.tok(state, k - 1)
+            ticks.append([k, _num(sim.t), recv])
             d = dur[k % 2]
             if stop["kind"] == "raise" and stop["at"] == k:
                 raise Boom(k)
@@ -432,7 +453,7 @@ def perform_rt(scn: Dict[str, Any], kind: str, *, profile: str = "plain", order:
                 sim.sleep(float(d))      # the action takes d units of the controlled clock; other threads run meanwhile
             if stop["kind"] == "self" and stop["at"] == k:
                 disp[0].dispose()
-            return cod.val(k)
+            return cod.ret(k, recv)
 
         def begin(_s=None, _st=None):
             disp[0] = target.schedule_periodic(float(p), action, state=cod.val(0))
@@ -622,7 +643,7 @@ def periodic_expected(period: int, n: int, *, t0: int = 0, dispose_at: Optional[
     maxk = max(self_dispose_at or 1, raise_at or 1)
     key = (period, t0, horizon, tuple(durations), maxk)
     if key not in _CACHE:
-        consts = dict(Forms={"periodic"}, Periods={period}, Starts={t0}, Firsts={period}, Durs=set(durations), Over=set(), Horizon=horizon, MaxK=maxk)
+        consts = dict(Forms={"periodic"}, Periods={period}, Starts={t0}, Firsts={period}, Durs=set(durations), Over=set(), NoneAts={0}, Horizon=horizon, MaxK=maxk)
         res = tlc.run("Periodic", tlc.cfg_text(consts, invariants=INVS + ["Export"]), workers=1, timeout=600, allow_violation=False)
         _CACHE[key] = res.lines
     if dispose_at is not None:
